@@ -764,7 +764,6 @@ func runScenario(sc *scenario, scratch string) (*vtrace.Trace, error) {
 			rec.snapEvent(ev, w.snapReg())
 		}
 	}
-	snapEv(vtrace.Event{"ev": "init"})
 
 	faultfree := len(sc.Faults) == 0 && sc.Cancel == nil && sc.Death == nil && sc.CancelCB == nil
 	for _, st := range sc.Script {
@@ -812,7 +811,18 @@ func runScenario(sc *scenario, scratch string) (*vtrace.Trace, error) {
 	}
 	hosts := []config.Host{}
 	for _, hn := range []string{hostA, hostB} {
-		hosts = append(hosts, config.Host{Name: hn, Hostname: hn, TLS: config.TLSDisabled, ReqConcurrent: conc})
+		h := config.Host{Name: hn, Hostname: hn, TLS: config.TLSDisabled, ReqConcurrent: conc}
+		// a mirror in the client's configuration of the source / target registry (the mirror holds nothing)
+		if (hn == hostA && (sc.Mirror == "src" || sc.Mirror == "both" || (sc.Mirror == "tgt" && w.sameReg()))) ||
+			(hn == hostB && (sc.Mirror == "tgt" || sc.Mirror == "both")) {
+			m := mirrorA
+			if hn == hostB {
+				m = mirrorB
+			}
+			h.Mirrors = []string{m}
+			hosts = append(hosts, config.Host{Name: m, Hostname: m, TLS: config.TLSDisabled, ReqConcurrent: conc})
+		}
+		hosts = append(hosts, h)
 	}
 	regOpts := []reg.Opts{reg.WithHTTPClient(&http.Client{Transport: w.net}), reg.WithDelay(time.Millisecond, 4*time.Millisecond)}
 	if sc.Cache != 0 {
@@ -898,7 +908,23 @@ func runScenario(sc *scenario, scratch string) (*vtrace.Trace, error) {
 	}
 
 	// ----- what the same client did before (its caches and feature memos carry over)
-	if sc.Prior != "" && w.tgtHost != nil && !w.sameRepo() {
+	if sc.Prior == "recopy" && !w.sameRepo() {
+		// the same copy was made before; then content vanished from the target behind the client's back
+		c.mu.Lock()
+		c.warm = true
+		c.mu.Unlock()
+		rec.mu.Lock()
+		rec.muted = true
+		rec.mu.Unlock()
+		_ = rc.ImageCopy(ctx, rSrc, rTgt, opts...)
+		w.wipe(sc.Wipe)
+		c.mu.Lock()
+		c.warm = false
+		c.mu.Unlock()
+		rec.mu.Lock()
+		rec.muted = false
+		rec.mu.Unlock()
+	} else if sc.Prior != "" && sc.Prior != "recopy" && w.tgtHost != nil && !w.sameRepo() {
 		c.mu.Lock()
 		c.warm = true
 		c.mu.Unlock()
@@ -931,6 +957,8 @@ func runScenario(sc *scenario, scratch string) (*vtrace.Trace, error) {
 		rec.muted = false
 		rec.mu.Unlock()
 	}
+
+	snapEv(vtrace.Event{"ev": "init"})
 
 	done := make(chan struct{})
 	var copyErr error
